@@ -8,7 +8,8 @@ deterministic toy integrator, so that the whole pipeline
 can be executed on both sides of the tie and compared number by number.
 
 The integrator is `harness/c09lib.py::Euler` (one explicit Euler step per requested interval;
-"steady state" = `nss` steps of size `h`; it fails — returns `Result(IntegrationFailure())` —
+"steady state" = `nss` steps of size `h`, reported as `NoSteadyState` when a tolerance is configured and
+the last step still moved a variable by `tol` or more; it fails — returns `Result(IntegrationFailure())` —
 iff `sum(y0) + 3*sum(rhs(0, y0))` is one of `failKeys`, decided at construction).  Its row
 layout is the layout of the shipped `Scipy` integrator: `integrate(t_end, steps)` returns
 `steps + 1` points `linspace(t0, t_end, steps + 1)`, `integrate_time_course` prepends `t0`
@@ -22,6 +23,9 @@ structure EulerCfg where
   nss : Nat
   h : Rat
   failKeys : List Rat
+  /-- `integrate_to_steady_state`: when given, the run reports `NoSteadyState` unless the last of the
+      `nss` steps moved every variable by less than `tol` -/
+  tol : Option Rat := none
 deriving Inhabited
 
 structure Integ where
@@ -84,13 +88,30 @@ def snapshot (c : Content) : Except Err (List (Name × Rat)) := do
 
 /-! ### steady state -/
 
+/-- `max(abs(y - yprev)) < tol` (no steps, or no tolerance: converged) -/
+def converged (tol : Option Rat) (yprev y : List Rat) : Bool :=
+  match tol with
+  | none => true
+  | some e => (List.zipWith (fun a b => if a ≤ b then b - a else a - b) yprev y).all fun dlt => decide (dlt < e)
+
+def lastStep (c : Content) (h : Rat) (nss : Nat) (prev : Rat × List Rat) : Except Err (Rat × List Rat) :=
+  if nss = 0 then .ok prev else eulerSteps c h 1 prev.1 prev.2
+
+def ssFinish (cfg : EulerCfg) (c : Content) (prev last : Rat × List Rat) :
+    Except Err (Content × Option (List Seg)) :=
+  if cfg.nss = 0 || converged cfg.tol prev.2 last.2 then
+    match snapshot c with
+    | .error e => .error e
+    | .ok p => .ok (c, some [{ rows := [last], pars := p }])
+  else .ok (c, none)
+
 def ssRun (cfg : EulerCfg) (c : Content) : Except Err (Content × Option (List Seg)) := do
   let ig ← simInit cfg c
   if ig.fail then pure (c, none)
   else
-    let (t, y) ← eulerSteps c cfg.h cfg.nss 0 ig.y0orig
-    let p ← snapshot c
-    pure (c, some [{ rows := [(t, y)], pars := p }])
+    let prev ← eulerSteps c cfg.h (cfg.nss - 1) 0 ig.y0orig
+    let last ← lastStep c cfg.h cfg.nss prev
+    ssFinish cfg c prev last
 
 def ssWorker (cfg : EulerCfg) : Worker := { run := ssRun cfg, dfltIndex := [0] }
 
